@@ -131,6 +131,40 @@ func implEval(src string, frames []any, log *callLog) (out evalOut) {
 	return out
 }
 
+// implEvalStable: evaluation is a function of the tree and the scope — the SAME parsed tree evaluated a second time
+// (nothing with side effects in scope) must give the same answer.  A difference is reported as result "unstable",
+// which matches neither the model nor any oracle.
+var unstableEvals [][2]string
+
+func implEvalStable(src string, frames []any) (out evalOut) {
+	defer func() {
+		if x := recover(); x != nil {
+			out = evalOut{R: "escaped-panic", Err: fmt.Sprint(x)}
+		}
+	}()
+	tree, err := exp.ParseCode(src)
+	if err != nil {
+		return evalOut{R: "reject"}
+	}
+	var first string
+	for round := 1; round <= 3; round++ {
+		v, err := exp.Evaluate(exp.NewPos(1, 1), tree, scopeOf(frames))
+		cur := "ok:" + canonGo(v)
+		if err != nil {
+			cur = "err"
+		}
+		if round == 1 {
+			first = cur
+		} else if cur != first {
+			if len(unstableEvals) < 20 {
+				unstableEvals = append(unstableEvals, [2]string{src, fmt.Sprintf("evaluation #%d: %s, evaluation #1: %s", round, cur, first)})
+			}
+			return evalOut{R: "unstable", Err: fmt.Sprintf("evaluation #%d of the same tree: %s, evaluation #1: %s", round, cur, first)}
+		}
+	}
+	return implEval(src, frames, nil)
+}
+
 func scopeOf(frames []any) exp.Scope {
 	if len(frames) == 0 {
 		return exp.EmptyScope()
